@@ -263,11 +263,11 @@ OPS_T = OPS_Q + ["ingest_expired", "digest_0", "digest_2"]
 HARNESSES = {
     "history": {"make": history, "witness_every": 29,
                 "jobs": lambda tier: ([{"k": 5, "maxq_hi": 8, "thr_hi": 8, "ops": OPS_Q}] if tier == "quick" else
-                                      [{"k": 6, "maxq_hi": 8, "thr_hi": 8, "ops": OPS_Q}, {"k": 5, "maxq_hi": 8, "thr_hi": 8, "ops": OPS_T}]),
+                                      [{"k": 5, "maxq_hi": 8, "thr_hi": 8, "ops": OPS_Q}, {"k": 4, "maxq_hi": 8, "thr_hi": 8, "ops": OPS_T}]),
                 "clauses": ["C13.a", "C13.b", "C13.c", "C13.c-count", "C13.c-result", "C13.c-autophagy", "C13.d"]},
     "threads": {"make": threads, "witness_every": 23,
                 "jobs": lambda tier: ([{"ops_per_thread": o, "preempt": 1, "prefill": p} for o, p in TH_Q] if tier == "quick" else
-                                      [{"ops_per_thread": o, "preempt": 2, "prefill": p} for o, p in TH_T]),
+                                      [{"ops_per_thread": o, "preempt": 2 if len(o) == 2 else 1, "prefill": p} for o, p in TH_T]),
                 "clauses": ["C13.a", "C13.b", "C13.c", "C13.c-count", "C13.c-autophagy"]},
 }
 
@@ -279,7 +279,7 @@ META = {
     },
     "files": ["operon_ai/organelles/lysosome.py"],
     "bounds": {"quick": "sequential: k=5 calls over 7 operations; max_queue_size 2..8 and auto_digest_threshold 1..8 symbolic. threads: 8 configurations of 2 threads x 1-2 operations (incl. autophagy racing ingest/digest over items past retention), preemption bound 1, line granularity, max_queue_size 2..4, threshold 1..4 symbolic",
-               "thorough": "sequential k=6 over 7 operations, k=5 over 10; threads: 10 configurations incl. 3 threads, preemption bound 2"},
+               "thorough": "sequential k=5 over 7 operations, k=4 over 10 (k=6 / k=5 over 10 exceed 5 minutes each on 16 cores: outside); threads: 13 configurations, preemption bound 2 for two threads and 1 for the three-thread configuration"},
     "outside": ["thread schedules beyond the preemption bound, preemption inside a source line", "histories longer than k (the queue can hold at most k items here, so capacities above k behave as unbounded)", "concurrent callers", "autophagy daemon thread"],
     "float_argument": "none",
     "assumptions": ["lysosome.datetime and the Waste factory use the symbolic clock", "every digester is wrapped by a stub that may raise before delegating to the real digester"],
